@@ -43,7 +43,7 @@ Definition evict_ok (self : id) (u : univ) (st : list (nat * Z)) (prev : list na
   match s_op s with
   | OAdd k =>
       forallb (fun m => bytes_eqb (nid (unode u m)) (nid (unode u k))
-                        || (head_of_group self u prev m && (STALE_TIME <? s_now s - stamp_of st m)%Z)) removed
+                        || (head_of_group self u prev m && (STALE_TIME <=? s_now s - stamp_of st m)%Z)) removed
       && (if s_ret s then existsb (Nat.eqb k) (s_dump s) else true)
   | ORemove k => forallb (fun m => bytes_eqb (nid (unode u m)) (nid (unode u k))) removed
   | OReset _ => forallb (fun k => existsb (Nat.eqb k) prev) (s_dump s)
